@@ -96,8 +96,19 @@ def lexer_engine():
         models["scpi::parser::tokenizer::Tokenizer::" + r_] = m_reader
     inl = ("scpi::parser::tokenizer::util::skip_ws", "scpi::parser::tokenizer::token::Token::is_data")
 
+    _util = D.inline_inherent(("scpi::parser::tokenizer::util::",))
+    _private = {}
+
+    def private_util(r):
+        # a helper of the util module that only the module itself can call (skip_ws written through a shared worker ...)
+        if r not in _private:
+            b_ = next((x for x in u.bodies if x.npath == r), None)
+            _private[r] = b_ is not None and b_.j.get("vis") == "Restricted" and b_.kind in ("Fn", "AssocFn") and not any(
+                x.npath != r and not x.npath.startswith("scpi::parser::tokenizer::util::") for x in u.bodies for c_ in x.calls() if c_.rname == r)
+        return _private[r]
+
     def inline(n, r):
-        return r in inl or n in inl or "skip_ws::{closure" in r
+        return r in inl or n in inl or "skip_ws::{closure" in r or (r.startswith("scpi::parser::tokenizer::util::") and (("::{closure" in r) or (_util(n, r) and private_util(r))))
 
     eng = fdai.Engine(P, u, inline=inline, models=models, loop_limit=6, max_paths=500)
     return eng
